@@ -13,8 +13,8 @@ use poulpy_core::{
     layouts::{Base2K, Degree, GGSW, GGSWLayout, GLWE, GLWEInfos, LWEInfos, Rank, TorusPrecision},
 };
 use poulpy_hal::{
-    api::{ScratchOwnedAlloc, ScratchOwnedBorrow},
-    layouts::{Module, ScratchOwned, ZnxInfos, ZnxView, ZnxViewMut},
+    api::{ScratchOwnedBorrow},
+    layouts::{Module, ZnxInfos, ZnxView, ZnxViewMut},
 };
 use proptest::prelude::*;
 use pzv_be::{Be, FullBackend, with_backend};
@@ -208,7 +208,7 @@ fn run<B: FullBackend>(m: &Module<B>, c: &Case) -> Verdict {
     let b = c.base2k as usize;
     let bx = c.base2k_x as usize;
     let rank = c.rank as usize;
-    let mut scratch = ScratchOwned::<B>::alloc(m.glwe_shift_tmp_bytes().max(m.glwe_normalize_tmp_bytes()).max(m.glwe_rotate_tmp_bytes()) + 4096);
+    let mut scratch = pzv_be::dirty_scratch::<B>(m.glwe_shift_tmp_bytes().max(m.glwe_normalize_tmp_bytes()).max(m.glwe_rotate_tmp_bytes()) + 4096);
     // registers
     let mut regs: Vec<Reg> = vec![];
     for r in 0..5 {
@@ -576,7 +576,7 @@ fn ggsw_run<B: FullBackend>(m: &Module<B>, c: &GgswCase) -> Verdict {
         }
     }
     let mut res = GGSW::alloc_from_infos(&lay);
-    let mut scratch = ScratchOwned::<B>::alloc(m.ggsw_rotate_tmp_bytes() + 4096);
+    let mut scratch = pzv_be::dirty_scratch::<B>(m.ggsw_rotate_tmp_bytes() + 4096);
     if c.inplace {
         res = a.clone();
         m.ggsw_rotate_assign(c.k, &mut res, scratch.borrow());
